@@ -6,15 +6,70 @@ import vlib
 from corr import certlib
 from corr.certlib import fr, vec, quiet, prob_line, parse_out, mlist, assemble
 
-LEAN_TARGETS = ['CvxVerif.Props.C05']
-MODEL_FILES = ['CvxVerif.Model.LinAlgMachine', 'CvxVerif.Model.CertCheck', 'CvxVerif.Proofs.CertCheck']
+LEAN_TARGETS = ['CvxVerif.Props.C05', 'CvxVerif.Props.C05Exits']
+MODEL_FILES = ['CvxVerif.Model.LinAlgMachine', 'CvxVerif.Model.CertCheck', 'CvxVerif.Proofs.CertCheck', 'CvxVerif.Gen.Exits', 'CvxVerif.Gen.Decide']
 LEVEL = 'proof'
-TRUSTED = ['planted-instance generator tools/corr/problems.py; every planted witness (strictly feasible pair, Farkas certificate, improving ray) is '
+TRUSTED = ['translator tools/translate/py2lean_exits.py (every `return {...}` of the main loops with its rescalings, symmetrisation walks and slack definitions -> Gen/Exits.lean)',
+           'planted-instance generator tools/corr/problems.py; every planted witness (strictly feasible pair, Farkas certificate, improving ray) is '
            're-verified by the rational checker Model/CertCheck.lean before the instance is used',
            'comparison tolerances: objectives 1e-5*(1+|value|); an `unknown` answer on a solvable instance is accepted only with recomputed residuals and gap <= 1e-5']
 ASSUMPTIONS = ['the planted witnesses satisfy their equations up to floating-point rounding of the generator (checked <= 1e-9 relative by the Lean checker); the '
                'class theorems are exact, the margin of the strictly interior witnesses is what absorbs that rounding',
                'termination within the iteration budget is observed on the generated instances, not proved']
+
+def translate(ctx):
+    sys.path.insert(0, os.path.join(vlib.VERIF, 'tools', 'translate'))
+    probs = []
+    try:
+        import py2lean; py2lean.gen_decide()
+    except Exception as e: probs.append('py2lean.gen_decide: %s: %s' % (type(e).__name__, e))
+    try:
+        import py2lean_exits; py2lean_exits.gen_exits()
+    except Exception as e: probs.append('py2lean_exits.gen_exits: %s: %s' % (type(e).__name__, e))
+    return probs
+
+def recomputed(cvxopt, PR, pr, r):
+    """(pres, dres, gap) of the vectors a cone solver handed back, against the caller's data"""
+    from cvxopt import matrix, misc, blas
+    c, G, h, A, b, P = PR.to_cvx(cvxopt, pr)
+    x, y = r.get('x'), r.get('y')
+    s, z = assemble(r, 's'), assemble(r, 'z')
+    if x is None or s is None or z is None: return None
+    s, z = matrix(s, (pr.N, 1), 'd'), matrix(z, (pr.N, 1), 'd')
+    rx = +c + matrix([misc.sdot(matrix(list(G[:, j])), z, pr.dims) for j in range(pr.n)], (pr.n, 1), 'd')
+    if pr.p and y is not None: rx = rx + A.T * y
+    if P is not None: rx = rx + P * x
+    rz = G * x + s - h
+    pres = misc.snrm2(rz, pr.dims) / max(1.0, misc.snrm2(h, pr.dims))
+    if pr.p: pres = max(pres, blas.nrm2(A * x - b) / max(1.0, blas.nrm2(b)))
+    return pres, blas.nrm2(rx) / max(1.0, blas.nrm2(c)), misc.sdot(s, z, pr.dims)
+
+def singular_exit_runs(ctx, cvxopt, PR, rng, n):
+    """small full-rank LPs with equality constraints under the default KKT solver: about one run in a hundred leaves through the
+    'singular KKT matrix' exit a few iterations before convergence.  'unknown' is acceptable there only with a final iterate whose residuals and gap,
+    recomputed from the returned x, y, s, z, are at the 1e-5 level."""
+    from cvxopt import solvers
+    stat = {'runs': 0, 'unknown': 0}
+    for i in range(n):
+        nv = rng.randint(3, 4)
+        pr = PR.planted_conelp(rng, 'optimal', n=nv, dims={'l': rng.randint(nv, nv + 3), 'q': [], 's': []}, p=rng.randint(1, min(3, nv - 1)))
+        c, G, h, A, b, _ = PR.to_cvx(cvxopt, pr)
+        stat['runs'] += 1
+        try: r = quiet(solvers.conelp, c, G, h, pr.dims, A, b, options={'show_progress': False})
+        except Exception as e:
+            stat[type(e).__name__] = stat.get(type(e).__name__, 0) + 1; continue
+        if r['status'] != 'unknown': continue
+        stat['unknown'] += 1
+        rec = recomputed(cvxopt, PR, pr, r)
+        if rec is None: continue
+        desc = {'kind': 'optimal', 'dims': pr.dims, 'c': pr.c, 'G': pr.G, 'h': pr.h, 'A': pr.A, 'b': pr.b, 'P': None, 'iterations': r.get('iterations')}
+        rep = (r.get('primal infeasibility'), r.get('dual infeasibility'), r.get('gap'))
+        for nm, a, b_ in zip(('primal infeasibility', 'dual infeasibility', 'gap'), rep, rec):
+            if a is not None and abs(a - b_) > 1e-5 * (1 + abs(b_)):
+                ctx.violation('c05:unknown-iterate-not-as-reported:conelp:%s' % nm.split(' ')[0], "conelp ended 'unknown' after %s iterations reporting %s = %r, but the returned "
+                              'x, y, s, z give %r' % (r.get('iterations'), nm, a, b_), desc)
+                break
+    return stat
 
 def paths(cvxopt, PR, pr, qp):
     """(tag, callable) for every native entry point applicable to the instance, default KKT solver"""
@@ -147,6 +202,10 @@ def correspond(ctx):
                 elif st == 'unknown':
                     near = all(r.get(k) is not None and abs(r[k]) <= 1e-4 for k in ('primal infeasibility', 'dual infeasibility')) and \
                         r.get('gap') is not None and (r["gap"] <= 1e-4 or (r.get("relative gap") is not None and r["relative gap"] <= 1e-4))
+                    rec = recomputed(cvxopt, PR, pr, r) if ent in ('conelp', 'coneqp', 'lp', 'socp', 'sdp', 'qp') else None
+                    if near and rec is not None and (rec[0] > 1e-4 or rec[1] > 1e-4):
+                        ctx.violation('c05:unknown-iterate-not-as-reported:%s' % ent, "%s ended 'unknown' reporting residuals %r / %r, but the returned x, y, s, z give %r / %r"
+                                      % (tag, r.get('primal infeasibility'), r.get('dual infeasibility'), rec[0], rec[1]), desc)
                     if not near and chol2_case and ent in ('conelp', 'lp', 'socp', 'sdp', 'coneqp', 'qp'):
                         bump('chol2-cases:failed:' + ('qp' if tag.split(' ')[0] in ('coneqp', 'qp') else 'lp')); chol2_fail.append(("%s ended 'unknown' (G alone is rank deficient, [G; A] is not)" % tag, desc))
                     elif not near:
@@ -192,11 +251,15 @@ def correspond(ctx):
         if nfail >= 4 and nfail > 0.5 * npaths: systematic = True; break
     for what, desc in chol2_fail:
         ctx.violation('c05:chol2-rank-deficient-G' + (':systematic' if systematic else ''), what + (' [%d of %d default-solver runs on such instances fail]' % (nfail, npaths) if systematic else ''), desc)
+    sx = singular_exit_runs(ctx, cvxopt, PR, random.Random(ctx.seed * 6151 + 55), 800 if ctx.quick() else 8000)
+    evals += sx['runs']
+    ctx.cov['singular_exit_runs'] = {k: str(v) for k, v in sx.items()}
     ctx.cov.update({'evaluations': evals, 'distinct_nontrivial': verified,
                     'rule': '%d planted instances (40%% strictly feasible cone LPs, 20%% cone QPs with P of rank 0..2, 20%% strict Farkas certificates, 20%% strictly '
                             'improving rays; random l/q/s mixes with and without equalities), witnesses verified by the Lean rational checker, each run through '
                             'conelp, coneqp (P = 0 for LPs), dense and sparse, lp / socp / sdp / qp wrappers where the cone allows, and cpl with no nonlinear constraint; '
-                            'default KKT solver and options' % n,
+                            'default KKT solver and options; plus small full-rank LPs with equality constraints under the default KKT solver, looking for runs that end through '
+                            "the 'singular KKT matrix' exit: their reported residuals and gap are recomputed from the returned x, y, s, z" % n,
                     'outcomes': stat})
 
 def search(ctx, why): return
